@@ -178,13 +178,15 @@ CHECKS = {
                         "the completion of a run is inferred from the changelog cache entry it writes (no hook)"],
     },
     "C05": {
-        "runs": [_r("TestC05", 3000, 160000)],
+        "runs": [_r("TestC05", 3000, 160000), _r("TestC05Limit", 250, 8000, qt=600, tt=3000)],
         "rule": "rapid draws a world (generator G) and 2-6 ListObjects calls: engine in {classic reverse expansion, its weighted-graph "
                 "variant, streaming pipeline}, unary or streamed, result limit in {1,2,3,default}, sometimes a 1 ms deadline "
                 "(soundness only), object/wildcard/userset subjects, contexts, contextual tuples. Oracle: returned objects are "
                 "distinct and hold the relation under R-sem (True, never merely Unknown); without limit/deadline and with every "
                 "condition evaluable the response equals the reference set; with a limit k the response has min(k,|truth|) objects. "
-                "Non-trivial: |truth| >= 2 and truth is a strict subset of the candidates (or the limit cuts it). Distinct: hash of the case.",
+                "Non-trivial: |truth| >= 2 and truth is a strict subset of the candidates (or the limit cuts it). Distinct: hash of the case. "
+                "Second run (TestC05Limit): one subject, 10-60 candidate objects most of which hold an intersection/exclusion/union relation, the same call with "
+                "limit 1-3 repeated 3-8 times on each engine, so that the per-candidate evaluations finish concurrently on the real scheduler.",
         "level_text": "exploration: generated worlds and calls over all three ListObjects engines compared with the reference set; no proof of absence",
         "technique": "property-based testing (rapid), differential against reference semantics R-sem, three engines on one store",
         "assumptions": ["R-sem is the specification", "memory datastore; caches off", "streamed API ignores the result limit (documented)"],
